@@ -389,6 +389,71 @@ pub fn instance_pair_values() -> Vec<InstanceInformation> {
     out
 }
 
+/// Equal values built independently (each with its own HashMap / HashSet inside): attribute maps
+/// whose keys collide when case is folded, many attributes, many addresses. Every copy must be
+/// equal to every other and hash the same.
+pub fn check_instance_copies(shape: usize) -> Vec<Finding> {
+    let case = json!({"kind": "instance-copies", "shape": shape});
+    let build = |order: usize| {
+        let mut i = InstanceInformation::new("inst".to_string());
+        let mut attrs: Vec<(String, Option<String>)> = match shape {
+            0 => vec![("Path".into(), Some("/a".into())), ("path".into(), Some("/b".into()))],
+            1 => vec![("k".into(), None), ("K".into(), Some(String::new())), ("kk".into(), Some("v".into()))],
+            2 => (0..12).map(|j| (format!("{}{}", if j % 2 == 0 { "key" } else { "KEY" }, j / 2), Some(format!("v{}", j)))).collect(),
+            3 => (0..40).map(|j| (format!("a{}", j), if j % 3 == 0 { None } else { Some("x".repeat(j)) })).collect(),
+            _ => vec![("txtvers".into(), Some("1".into())), ("TxtVers".into(), Some("2".into())), ("TXTVERS".into(), None)],
+        };
+        if order % 2 == 1 {
+            attrs.reverse();
+        }
+        let k = order % attrs.len().max(1);
+        attrs.rotate_left(k);
+        for (k, v) in attrs {
+            i = i.with_attribute(k, v);
+        }
+        for j in 0..(shape + 1) {
+            i = i.with_ip_address(std::net::IpAddr::V4(std::net::Ipv4Addr::new(10, 0, (order + j) as u8 % 3, j as u8)));
+        }
+        for j in 0..(shape + 1) {
+            i = i.with_ip_address(std::net::IpAddr::V4(std::net::Ipv4Addr::new(10, 0, j as u8 % 3, j as u8)));
+            i = i.with_ip_address(std::net::IpAddr::V4(std::net::Ipv4Addr::new(10, 0, (j as u8 + 1) % 3, j as u8)));
+            i = i.with_ip_address(std::net::IpAddr::V4(std::net::Ipv4Addr::new(10, 0, (j as u8 + 2) % 3, j as u8)));
+            i = i.with_port(1000 + ((order + j) % 5) as u16);
+        }
+        for j in 0..5 {
+            i = i.with_port(1000 + j);
+        }
+        i
+    };
+    let r = guarded(|| {
+        let copies: Vec<InstanceInformation> = (0..48).map(build).collect();
+        let h0 = h(&copies[0]);
+        let mut neq = 0;
+        let mut hdiff = 0;
+        for c in &copies {
+            if *c != copies[0] {
+                neq += 1;
+            } else if h(c) != h0 {
+                hdiff += 1;
+            }
+        }
+        let set: std::collections::HashSet<InstanceInformation> = copies.iter().cloned().collect();
+        (neq, hdiff, set.len())
+    });
+    match r {
+        Err(pn) => vec![finding(format!("C16|instance-copies|{}", pn.sig()), format!("{:?}", pn), case)],
+        Ok((neq, hdiff, setlen)) => {
+            let mut out = Vec::new();
+            if neq > 0 {
+                out.push(finding("C16|instance-copies|built-in-different-order-unequal", format!("{} of 48 copies built from the same members in another order compare unequal", neq), case.clone()));
+            } else if hdiff > 0 || setlen != 1 {
+                out.push(finding("C16|instance-copies|equal-but-hash-differs", format!("48 equal values built independently: {} hash differently from the first; as a HashSet they make {} elements", hdiff, setlen), case));
+            }
+            out
+        }
+    }
+}
+
 pub fn check_instance_pairs() -> (Vec<Finding>, u64, u64) {
     let case = json!({"kind": "instance-pairs"});
     let r = guarded(|| {
@@ -495,6 +560,15 @@ pub fn run(ctx: &Ctx) {
         ctx.merge(t);
         ctx.space("InstanceInformation pairs: every name of <= 3 characters over {a, A, '.', '\\', ' ', e-acute} plus escaped / unescaped spellings, and variants in ports, addresses (incl. IPv4-mapped), attributes (absent / empty / value, key case, insertion order): all ordered pairs, a == b => same hash and found in a HashSet", n * n, "complete");
         ctx.sample(json!({"kind": "instance-pairs"}));
+        let mut t = Tally::default();
+        for shape in 0..5usize {
+            t.evals += 48;
+            t.nontrivial += 48;
+            ctx.violations(check_instance_copies(shape));
+        }
+        t.outcome("instance-copies");
+        ctx.merge(t);
+        ctx.space("InstanceInformation copies: 5 shapes (attribute keys that collide when case is folded, 12 and 40 attributes, several addresses and ports) x 48 independently built equal values each (members inserted in rotated / reversed orders): all equal, all hash alike, one HashSet element", 5 * 48, "complete");
     }
 }
 
@@ -507,6 +581,7 @@ pub fn replay(case: &Value) -> Vec<Finding> {
         "eqhash" => check_eq_hash().0,
         "odd" => check_odd_values().0,
         "instance-pairs" => check_instance_pairs().0,
+        "instance-copies" => check_instance_copies(case["shape"].as_u64().unwrap_or(0) as usize),
         "instances" => check_instances(case["ips"].as_u64().unwrap_or(0) as usize, case["ports"].as_u64().unwrap_or(0) as usize).0,
         _ => vec![],
     }
